@@ -57,9 +57,12 @@ ChainOK(st, c) == c.chain = "b0" /\ st.cert[c.ck] = "fresh"
 TlsOK(st, c) == ChainOK(st, c) /\ c.priv /\ c.ck = c.k
 ServerCertOK(c) == c.pref \in {"cur", NONE}
 
+\* kind "mixedFA": fetch-request chunks FOLLOWED by authentication chunks in one ClientHello: the first
+\* library protocol decides, so it is a fetch; "mixedAF": authentication chunks first: an authentication.
+IsAuthKind(c) == c.kind \in {"auth", "mixedAF"}
 DoConnect(st, c) ==
   IF c.kind = "base" THEN Out(IF st.cfg.base THEN "base" ELSE "temperr", st)
-  ELSE IF c.kind = "fetch" THEN Out("temperr", st)            \* a credential fetch never yields a connection
+  ELSE IF c.kind \in {"fetch", "mixedFA"} THEN Out("temperr", st)   \* a credential fetch never yields a connection
   ELSE IF GateOK(st, c) /\ TlsOK(st, c) /\ ServerCertOK(c) THEN Out("auth", st)
   ELSE Out("temperr", st)
 
@@ -83,12 +86,15 @@ Apply(st, o) ==
 AuthClients == [op : {"Connect"}, kind : {"auth"}, k : CertKeys, ck : CertKeys, chain : {"b0", "b1", "foreign", "self"},
                 priv : BOOLEAN, nsig : Signers, stt : {NONE, "ok", "forged", "unsigned"}, skip : BOOLEAN,
                 nid : {NONE, "own", "other"}, pref : {"cur", "next", "garbage", NONE}, cn : BOOLEAN]
+MixedClients == {[c EXCEPT !.kind = m] : c \in {x \in AuthClients : ~x.cn /\ x.pref = "cur" /\ x.nid = NONE /\ x.stt = NONE},
+                                          m \in {"mixedFA", "mixedAF"}}
 OtherClients == [op : {"Connect"}, kind : {"base", "fetch"}, k : CertKeys, ck : CertKeys, chain : {"self"},
                  priv : {TRUE}, nsig : {NONE}, stt : {NONE}, skip : {FALSE}, nid : {NONE}, pref : {NONE}, cn : {FALSE}]
-Clients == AuthClients \cup OtherClients
+Clients == AuthClients \cup OtherClients \cup MixedClients
 
 MalClasses == {"empty", "short1", "short2", "nob64", "b64rand", "b64trunc", "oversize", "mixed", "dup", "badindex",
-               "nontls", "dropAfterHello", "dropMidHello", "silentClose", "wrappedShort", "hugeEntry", "prefOnly"}
+               "nontls", "dropAfterHello", "dropMidHello", "silentClose", "wrappedShort", "hugeEntry", "prefOnly",
+               "clientAlert", "resetMidHello", "resetAfterHello"}
 MalPrefixes == {"fetch", "auth", "pref"}
 
 (***************************************************************************)
@@ -96,7 +102,7 @@ MalPrefixes == {"fetch", "auth", "pref"}
 (***************************************************************************)
 \* what the property requires of an authenticated connection
 C02Auth(st, c) ==
-  /\ c.kind = "auth"
+  /\ c.kind \in {"auth", "mixedAF", "mixedFA"}
   /\ c.priv                                             \* proved possession
   /\ ChainOK(st, c)                                     \* certified by a currently valid root of this server
   /\ c.ck = c.k                                         \* the verified key is the presented one
@@ -105,5 +111,6 @@ C02Auth(st, c) ==
 AllowedC02(st, c, res) ==
   /\ (res = "auth" => C02Auth(st, c))
   /\ (c.kind = "fetch" => res \notin {"auth", "base", "fetchconn"})
+  /\ (c.kind = "mixedFA" => res # "auth")      \* the fetch came first: a credential-fetch handshake never yields a connection
   /\ res \in {"auth", "base", "temperr"}
 =============================================================================
